@@ -545,17 +545,16 @@ func genC16(t *rapid.T, p *gen.Profile) *C16Case {
 			s.Fragment = ""
 		}
 	case "tagname":
-		s.Header = header
-		s.Before = indent + "assets:cash  5 EUR  ; "
+		s.Header, s.Before = c16CommentLine(t, names, header, indent)
 		s.Fragment = genFragment(t, pick(t, names.tags.all, "k", "name"))
 		if strings.ContainsAny(s.Fragment, ":,") {
 			s.Fragment = ""
 		}
 	case "tagvalue":
-		s.Header = header
 		tn := pick(t, names.tags.all, "k", "tname")
 		s.TagName = tn
-		s.Before = indent + "assets:cash  5 EUR  ; " + tn + ":"
+		s.Header, s.Before = c16CommentLine(t, names, header, indent)
+		s.Before += tn + ":"
 		vs := map[string]bool{}
 		if names.tagValues[tn] != nil {
 			for v := range names.tagValues[tn].all {
@@ -571,6 +570,34 @@ func genC16(t *rapid.T, p *gen.Profile) *C16Case {
 	}
 	c.Sit = s
 	return c
+}
+
+// c16CommentLine is the line up to and including the "; " that opens the comment the tag is typed
+// in: after a posting (its account and commodity possibly non-ASCII, so that the cursor's UTF-16
+// column, its code-point column and its byte offset all differ), after a transaction header, or
+// on a comment line of the transaction.
+func c16CommentLine(t *rapid.T, names *c16Names, header, indent string) (hdr, before string) {
+	semi := rapid.SampledFrom([]string{"  ; ", "  ;", " ; ", "\t; "}).Draw(t, "semi")
+	switch rapid.IntRange(0, 5).Draw(t, "commentwhere") {
+	case 0:
+		return header, indent + "assets:cash  5 EUR" + semi
+	case 1:
+		acct := rapid.SampledFrom([]string{"расходы:еда", "assets:caf\u00e9 😀", pick(t, names.accounts.all, "assets:cash", "tacct")}).Draw(t, "tagacct")
+		amt := rapid.SampledFrom([]string{"5 EUR", "€5", "5 €", "50 руб @ 2 ¥", "", "1 \"🍎 X\""}).Draw(t, "tagamt")
+		if amt == "" {
+			return header, indent + acct + "  " + strings.TrimLeft(semi, " ")
+		}
+		return header, indent + acct + "  " + amt + semi
+	case 2:
+		payee := rapid.SampledFrom([]string{"Магазин", "Caf\u00e9 😀 bar", pick(t, names.payees.all, "shop", "tpayee")}).Draw(t, "tagpayee")
+		st := rapid.SampledFrom([]string{"", "* ", "! (7) "}).Draw(t, "tagst")
+		return "", "2024-06-02 " + st + payee + semi
+	case 3:
+		return "", "2024-06-02" + semi // a header without description
+	case 4:
+		return header, indent + strings.TrimLeft(semi, " \t")
+	}
+	return header, indent + "assets:cash" + semi
 }
 
 var recC16 = ev.New("C16")
